@@ -165,6 +165,8 @@ def participant_record(b, pspec):
                     {"topology": "Circular", "comment": "hand-made"}][pspec.get("ann_style", 0) % 4]}
     if pspec.get("refs") is not None:
         spec["refs"] = [REF_POOL[i % len(REF_POOL)] for i in pspec["refs"]]
+    if pspec.get("tracks"):
+        spec["tracks"] = {"phred_quality": "index"}       # per-letter annotations
     r = rec.build(spec)
     if extra:
         r = r >> extra
@@ -195,6 +197,8 @@ def annotated_assembly(draw, max_chain=4, max_seg=30, with_refs=False, enzyme=No
         p["feats"] = draw(feature_table(b.n, A0, L, prefix=b.id + "_", nrefs=nrefs))
         # hand-made records often lack the topology key (or spell it differently)
         p["ann_style"] = draw(st.integers(0, 3))
+        if draw(st.integers(0, 4)) == 0:
+            p["tracks"] = True
     if draw(st.integers(0, 2)) == 0:
         # participants inspected (is_valid, overhangs, target) before the call
         spec["touch"] = draw(st.lists(st.integers(0, len(bms)), min_size=1, max_size=3))
